@@ -36,7 +36,7 @@ META = dict(
 
 ALPHA = [None, "a", "b"]
 OPS = ["add", "add_zero", "add_annotator", "remove_present", "remove_absent", "copy", "copy_flush", "reset_bounds",
-       "merge", "merge_inplace", "eq", "views"]
+       "merge", "merge_inplace", "eq", "views", "add_many"]
 
 
 def configs(tier):
@@ -310,6 +310,26 @@ def harness(cfg, ns):
             want2 = dict(want)
             want2["zz_new"] = [new]
             obls += post_checks(c, want2, sorted(pre["ann"] + ["zz_new"]), "add-new-annotator", cats, (lo, hi))
+        elif op == "add_many":
+            # add_timeline / add_annotation: one `add` per segment / per (segment, label) track
+            s1, e1, s2, e2 = (ctx.fresh(n_) for n_ in ("ts1", "te1", "ts2", "te2"))
+            ctx.solver.add(e1.e - s1.e > lift(PREC), e2.e - s2.e > lift(PREC))
+            E["extra"].update(ts1=s1, te1=e1, ts2=s2, te2=e2)
+            inputs.extend([s1, e1, s2, e2])
+            target = names[0]
+            c.add_timeline(target, [Segment(s1, e1), Segment(s2, e2)])
+
+            class Tracks:
+                def itertracks(self, yield_label=False):
+                    for seg, lab in ((Segment(s1, e1), "c"), (Segment(s2, e2), None)):
+                        yield (seg, "trk", lab) if yield_label else (seg, "trk")
+            c.add_annotation("zz_new", Tracks())
+            want = dict(model_units)
+            want[target] = model_units[target] + [(s1, e1, None), (s2, e2, None)]
+            want["zz_new"] = [(s1, e1, "c"), (s2, e2, None)]
+            lo = core.s_min([pre["bounds"][0], s1, s2])
+            hi = core.s_max([pre["bounds"][1], e1, e2])
+            obls += post_checks(c, want, sorted(pre["ann"] + ["zz_new"]), "add_timeline/add_annotation", set(pre["cats"]) | {"c"}, (lo, hi))
         elif op == "add_annotator":
             c.add_annotator(names[0])
             obls.append(Obl("add_annotator:existing-is-noop", SymBool(same_state(snapshot(c), pre)), rz))
@@ -524,6 +544,17 @@ def replay(case):
             except ValueError:
                 pass
             check(c, model, cats, "add_zero")
+        elif op == "add_many":
+            from pyannote.core import Annotation, Timeline
+            s1, e1, s2, e2 = (F(ex[k]) for k in ("ts1", "te1", "ts2", "te2"))
+            c.add_timeline(names[0], Timeline([Segment(s1, e1), Segment(s2, e2)]))
+            an = Annotation()
+            an[Segment(s1, e1)] = "c"
+            an[Segment(s2, e2), "t2"] = None
+            c.add_annotation("zz_new", an)
+            model[names[0]].update({(s1, e1, None), (s2, e2, None)})
+            model["zz_new"] = {(s1, e1, "c"), (s2, e2, None)}
+            check(c, model, cats | {"c"}, "add_timeline/add_annotation")
         elif op == "remove_present":
             for a in names:
                 for u in sorted(model[a], key=_key):
